@@ -669,6 +669,34 @@ func (e *Env) call(x *Expr) Val {
 			t = types.Typ[types.Int32]
 		}
 		return Val{Addr: b.T, GoT: t}
+	case "istype", "cast":
+		// istype(x, "*T") / cast(x, "*T"): dynamic type test / projection of an interface value
+		b := e.rv(e.tr(x.Args[0]))
+		if b.Sort != "Iface" || len(x.Args) != 2 || x.Args[1].Op != "str" {
+			fail("usage: %s(<interface value>, \"*T\")", name)
+		}
+		tn := x.Args[1].Str
+		ptr := strings.HasPrefix(tn, "*")
+		tn = strings.TrimPrefix(tn, "*")
+		if e.pkg == nil {
+			fail("%s: no package scope", name)
+		}
+		obj := e.pkg.Scope().Lookup(tn)
+		tobj, ok := obj.(*types.TypeName)
+		if !ok {
+			fail("%s: unknown type %s", name, tn)
+		}
+		var t types.Type = tobj.Type()
+		if ptr {
+			t = types.NewPointer(t)
+		}
+		if name == "istype" {
+			return Val{T: fmt.Sprintf("(= (i_typ %s) %d)", b.T, e.u().typeID(t)), Sort: "Bool"}
+		}
+		if !ptr {
+			fail("cast supports pointer types only")
+		}
+		return Val{T: "(i_val " + b.T + ")", Sort: "Loc", GoT: t}
 	case "allocated":
 		b := e.rv(e.tr(x.Args[0]))
 		obj := "(l_obj " + b.T + ")"
